@@ -218,7 +218,10 @@ fn prepare(rig: &Rig, store: StoreContent, rng: &mut Rng) -> Vec<Vec<u8>> {
 fn run_ctap(rep: &mut Report, c: &Case, index: u64, outcomes: &mut HashMap<String, Vec<(StoreContent, bool, Option<u8>)>>) {
     rep.eval();
     rep.nontrivial(fnv_str(&format!("{c:?}")));
-    let cj = c.json(index);
+    let mut cj = c.json(index);
+    // (chosen by a hash of the tuple, so that the entry point is independent of every other dimension)
+    let via_trait = fnv_str(&format!("{c:?}")) % 3 == 0;
+    cj["entry_point"] = json!(if via_trait { "Ctap2Api trait" } else { "inherent method" });
     let mut rng = Rng::derive(7, "c04", index);
     let mut rig = Rig::new(Disc::Full, c.outcome, c.ver_cap);
     rig.uv.presence_enabled = c.pres_cap;
@@ -233,7 +236,9 @@ fn run_ctap(rep: &mut Report, c: &Case, index: u64, outcomes: &mut HashMap<Strin
                 req.pin_auth = Some(vec![1, 2, 3, 4].into());
                 req.pin_protocol = Some(1);
             }
-            match block_on(auth.make_credential(req)) {
+            // every third case enters through the `Ctap2Api` trait (what a transport front end calls)
+            let r = if via_trait { block_on(passkey_authenticator::Ctap2Api::make_credential(&mut auth, req)) } else { block_on(auth.make_credential(req)) };
+            match r {
                 Ok(r) => (true, None, Some(u8::from(r.auth_data.flags)), r.auth_data.to_vec(), None),
                 Err(e) => (false, Some(status_byte_ref(&e)), None, vec![], None),
             }
@@ -249,7 +254,8 @@ fn run_ctap(rep: &mut Report, c: &Case, index: u64, outcomes: &mut HashMap<Strin
                 req.pin_auth = Some(vec![1, 2, 3, 4].into());
                 req.pin_protocol = Some(1);
             }
-            match block_on(auth.get_assertion(req)) {
+            let r = if via_trait { block_on(passkey_authenticator::Ctap2Api::get_assertion(&mut auth, req)) } else { block_on(auth.get_assertion(req)) };
+            match r {
                 Ok(r) => {
                     let id = r.credential.as_ref().map(|d| d.id.to_vec());
                     (true, None, Some(u8::from(r.auth_data.flags)), r.auth_data.to_vec(), id)
